@@ -456,12 +456,13 @@ fn templates(rng: &mut Rng, thorough: bool) -> Vec<(Cfg, Vec<Step>)> {
     }
     // last (appended so that the numbering of the histories above does not move): an exhausted balance. Two slots,
     // both used; further appointments are refused before and after every kill + restart (Gatekeeper::new must reload
-    // the balance 0 as 0), a same-size update rewrites the users row from memory, the read states the balance
+    // the balance 0 as 0), a same-size update - also as the last request, after a poll in which a kill may fall -
+    // rewrites the users row from memory, the read states the balance
     v.push((Cfg { slots: 2, duration: 300, delta: 5 }, vec![
         reg(0), reg(1), Step::Add(0, 1, 1, 101, 0), Step::Add(0, 2, 2, 102, 0), Step::Add(0, 3, 3, 103, 0),
         Step::Mine(vec![]), Step::Poll, Step::Add(0, 1, 1, 101, 0), Step::Api(Op::GetSub { signer: 0, class: 0 }),
         Step::Add(0, 3, 3, 103, 0), Step::Add(1, 3, 3, 103, 2049), Step::Add(1, 4, 4, 104, 0), Step::Mine(vec![]), Step::Poll,
-        Step::Api(Op::GetSub { signer: 1, class: 0 }),
+        Step::Add(0, 2, 2, 102, 0), Step::Api(Op::GetSub { signer: 1, class: 0 }),
     ]));
     v
 }
